@@ -27,6 +27,8 @@ pub use crate::internal::stream::{StreamReader, StreamWriter, Streams};
 pub use crate::internal::summary::SummaryInfo;
 pub use crate::internal::table::{Row, Rows, Table};
 pub use crate::internal::value::Value;
+#[cfg(msi_verif)]
+pub use crate::internal::verif::set_hash_seed as verif_set_hash_seed;
 use std::fs;
 use std::io;
 use std::path::Path;
